@@ -413,8 +413,44 @@ Record fit_spec := {
 
 Definition opt_list (o : option string) : list string := match o with Some t => [t] | None => [] end.
 
+(* AbstractPaths.output_path: `filter(None, [output_path, path_prefix, unique_tag, name])` + [identifier]: an
+   EMPTY prefix component, tag or name adds no folder level (a tag '' lies where a fit without tag lies) *)
+Definition nonempty (l : list string) : list string := filter (fun x => negb (String.eqb x "")) l.
+
 Definition spec_path (s : fit_spec) : list string :=
-  fs_prefix s ++ opt_list (fs_tag s) ++ [fs_name s; fs_id s].
+  nonempty (fs_prefix s ++ opt_list (fs_tag s) ++ [fs_name s]) ++ [fs_id s].
+
+(* ---- which tokens are hashed into the identifier, on each side ---------------------------------------- *)
+(* writer -- AbstractPaths._identifier (folder name; also the id of a fit written through a session):
+     identifier_list = [search, model]; if unique_tag IS NOT None: identifier_list.append(unique_tag)
+   `s`, `m`: the tokens of the search and of the model (C07), opaque here *)
+Definition writer_tokens (s m : list string) (tag : option string) : list string :=
+  match tag with None => s ++ m | Some t => (s ++ m) ++ [t] end.
+
+(* loader -- SearchOutput.id: Identifier([search, model, unique_tag]); Identifier walks the list and adds, per item,
+   the item's tokens: nothing for None, str(value) for a string -- the empty string included *)
+Inductive idval := VTokens (l : list string) | VTag (t : option string).
+Definition value_tokens (v : idval) : list string :=
+  match v with VTokens l => l | VTag None => [] | VTag (Some t) => [t] end.
+Definition loader_tokens (s m : list string) (tag : option string) : list string :=
+  flat_map value_tokens [VTokens s; VTokens m; VTag tag].
+
+(* the neighbouring rule "append the tag when it is TRUTHY" (how output_path treats it): NOT the code's rule *)
+Definition writer_tokens_truthy (s m : list string) (tag : option string) : list string :=
+  match tag with None | Some "" => s ++ m | Some t => (s ++ m) ++ [t] end.
+
+(* md5 of '.'.join(tokens) enters as a finite oracle table *)
+Fixpoint strs_eqb (a b : list string) : bool :=
+  match a, b with
+  | [], [] => true
+  | x :: a', y :: b' => String.eqb x y && strs_eqb a' b'
+  | _, _ => false
+  end.
+Fixpoint lookup_tokens (k : list string) (t : list (list string * string)) : option string :=
+  match t with
+  | [] => None
+  | (k', v) :: r => if strs_eqb k k' then Some v else lookup_tokens k r
+  end.
 
 Definition has_samples (s : fit_spec) : bool :=
   match fs_interrupt s with BeforeSamples | PreFit _ => false | _ => true end.
@@ -570,7 +606,12 @@ Inductive case :=
 | CDir2 (co : bool) (dirA dirB : list folder) (obsA obsB : observed)
 (* archives and folders as they lie on disk BEFORE the load (each read on its own): the loaded database is
    scrape of what extraction-over-the-folder leaves, and that is what an independent extraction shows (`found`) *)
-| CDisk (co : bool) (ds : list on_disk) (found : list folder) (obs : observed).
+| CDisk (co : bool) (ds : list on_disk) (found : list folder) (obs : observed)
+(* the identifier of ONE fit on its three sides: folder name the directory route wrote (`written`), id of the fit
+   loaded from that folder (`loaded`), id of the same fit written through a session (`session`); `table` = md5 of
+   candidate token lists (oracle), `s` / `m` = tokens of the live search / model *)
+| CIdent (s m : list string) (tag : option string) (table : list (list string * string))
+         (written loaded session : string).
 
 Definition nth_spec (specs : list fit_spec) (i : nat) : list folder :=
   match nth_error specs i with Some s => [write_fit s] | None => [] end.
@@ -606,6 +647,10 @@ Definition check_case (classes : list search_class) (uf : bool) (c : case) : boo
   | CDisk co ds found obs =>
       outcome_matches [] (scrape classes uf co (unzip_all ds) []) obs
       && list_eqb folder_eqb (unzip_all ds) found
+  | CIdent s m tag table written loaded session =>
+      opt_str_eqb (lookup_tokens (writer_tokens s m tag) table) (Some written)
+      && opt_str_eqb (lookup_tokens (loader_tokens s m tag) table) (Some loaded)
+      && opt_str_eqb (lookup_tokens (writer_tokens s m tag) table) (Some session)
   | CDir2 co dirA dirB obsA obsB =>
       let ma := scrape classes uf co dirA [] in
       let dbA := rows_after [] ma in
